@@ -155,6 +155,18 @@ def fam_predicate(res, s, v, spec, what, n=None, expand=False):
         return
     t = all_conv(expand_eq(t))
     g = spec
+    if what == 'touchingOrOverlapping' and (n is None or not isinstance(n, int) or n >= 2) and len(s.kinds) == 2:
+        # "two boxes meet iff one holds a corner of the other": a pure disjunction of X.contains(Y.lower|Y.upper) tests is false for
+        # every pair that crosses like a plus sign (a wider on one axis, b wider on another) although the boxes share points
+        ds = flatten(t, '||')
+        boxes = {('p', 0), ('p', 1)}
+        if len(ds) >= 2 and all(d[0] == 'mcall' and d[1] == 'contains' and d[2] in boxes and len(d[3]) == 1 and d[3][0][0] == 'm'
+                                and d[3][0][2] in (LO, HI) and d[3][0][1] in boxes - {d[2]} for d in ds):
+            res.bad(R1, 'touchingOrOverlapping is decided by corner containment (`%s`): two closed boxes can share points without either '
+                        'holding the lower or upper corner of the other - a = [0,3]x[1,2], b = [1,2]x[0,3] cross like a plus sign, every '
+                        'contains() test is false, yet [1,2]x[1,2] lies in both; the definition is the per-axis interval test (not '
+                        'disjoint: a.lower <= b.upper and b.lower <= a.upper on every axis)' % show(t, s.names)[:200], 'corner-containment')
+            return
     # a sibling predicate used by name stands for its own (separately decided) meaning
     dis = lambda A, B: ('b', '||', L(M(A, HI), M(B, LO)), L(M(B, HI), M(A, LO)))
 
@@ -987,6 +999,26 @@ def fam_xfmbounds(res, s, v):
             and body[0][2][0][1] is not None:
         early_return(res, s, v, body[0][1], body[0][2][0][1], ('p', mi0), ('p', bi0))
         body = body[1:]
+    if len(body) == 1 and body[0][0] == 'ret' and body[0][1] is not None:
+        # centre / half-extent form `box(c - h, c + h)`: the half-extent of the image of a box under the linear part L is |L| * h
+        # (absolute values of the matrix entries); `abs(L * h)` - the absolute value taken after the transform - lets the terms of
+        # a row with mixed signs cancel and is recognisably too small
+        r = all_conv(body[0][1]) if body[0][1][0] != 'ctor' else body[0][1]
+        if r[0] == 'ctor' and len(r[2]) == 2 and r[2][0][0] == 'b' and r[2][1][0] == 'b' and r[2][0][1] == '-' and r[2][1][1] == '+' \
+                and r[2][0][2] == r[2][1][2] and r[2][0][3] == r[2][1][3]:
+            c, h = all_conv(r[2][0][2]), all_conv(r[2][0][3])
+            mm_ = ('p', mi0)
+            if c[0] == 'call' and c[1] == 'xfmPoint' and c[2][:1] == (mm_,) and h[0] == 'call' and h[1] == 'abs' and len(h[2]) == 1:
+                inner = all_conv(h[2][0])
+                lin = (inner[0] == 'call' and inner[1] in ('xfmVector', 'xfmPoint') and inner[2][:1] == (mm_,)) or \
+                      (inner[0] == 'b' and inner[1] == '*' and all_conv(inner[2]) == ('m', mm_, 'l'))
+                if lin:
+                    res.bad(R4, 'xfmBounds returns `box(c - h, c + h)` with the half-extent h = `%s`: the absolute value is taken after the '
+                                'half-diagonal went through the transform, so in a row of the linear part with entries of mixed sign '
+                                '(rotation by a non-multiple of 90 degrees, shear with a negative coefficient) the terms cancel; the '
+                                'half-extent of the image is |L| * h (absolute values of the entries), and the returned box does not '
+                                'contain the images of all 8 corners' % show(h, names)[:160], 'extent-abs-after-transform')
+                    return
     if not body or body[0][0] != 'decl':
         res.und(R4, 'xfmBounds: does not start by declaring the result box')
         return
@@ -1347,8 +1379,58 @@ def distributed_slab(sl, bound, org, rdir, names):
     return None
 
 
+def raybox_early_reject(res, s, v):
+    """`if (org[k] >= box.upper[k] && ...) return empty;` (also inside a loop over the axes): an early exit that returns the empty
+    range on an INCLUSIVE comparison of the origin with a face plane is recognisably wrong - the box is closed, an origin on the
+    plane is inside that slab at t = 0.  True if a violation was recorded."""
+    names = s.names
+    org, box = ('p', 0), ('p', 2)
+
+    def comp_of(x, base):
+        x = all_conv(x)
+        if x[0] == 'idx' and all_conv(x[1]) == base:
+            return ('i', x[2])
+        if x[0] == 'm' and x[2] in COMPS and all_conv(x[1]) == base:
+            return ('c', x[2])
+        return None
+
+    def walk(stmts):
+        for st in stmts:
+            if st[0] == 'for':
+                yield from walk(st[4])
+            elif st[0] == 'if':
+                th = [x for x in st[2]]
+                if len(th) == 1 and th[0][0] == 'ret' and th[0][1] is not None and is_empty_box(th[0][1], v) and not st[3]:
+                    yield st[1]
+                else:
+                    yield from walk(st[2])
+                    yield from walk(st[3])
+    hits = []
+    for cond in walk(v.body()):
+        def scan(x):
+            if x[0] == 'b' and x[1] in ('>=', '<='):
+                l, r, op = x[2], x[3], x[1]
+                for a, b, o in ((l, r, op), (r, l, '<=' if op == '>=' else '>=')):
+                    ko = comp_of(a, org)
+                    for bound, wrong in ((HI, '>='), (LO, '<=')):
+                        kb = comp_of(b, M(box, bound))
+                        if ko is not None and kb is not None and ko == kb and o == wrong:
+                            hits.append((show(x, names), bound))
+            return x
+        map_terms(cond, scan)
+    if hits:
+        res.bad(R5, 'intersectRayBox: early exit returns the empty range when `%s`: the comparison of the origin with the %s face plane '
+                    'is inclusive, but the box is a closed set - an origin exactly on that plane lies inside the slab at t = 0, so a ray '
+                    'that starts on a face (and runs along it or away from the box) has the non-empty parameter set {0} or an interval '
+                    'and must not be rejected; only a strict comparison can reject' % (hits[0][0], hits[0][1]), 'early-reject-inclusive')
+        return True
+    return False
+
+
 def fam_raybox(res, s, v, tu=None):
     names = s.names
+    if any(st[0] in ('for', 'if') for st in v.body()) and raybox_early_reject(res, s, v):
+        return
     t = single_return(v)
     if t is None and tu is not None and raybox_sign_ordered(res, s, v, tu):
         return
